@@ -73,7 +73,7 @@ impl Sut for HeapSut {
                         break;
                     }
                     if next > 10_000_000 {
-                        panic!("tool error: key search for CMSHeap element failed");
+                        probe_failed("key search for CMSHeap element failed");
                     }
                 }
             }
